@@ -5,6 +5,13 @@ PackedPointRecords, plus random index expressions, plus HISTORIES (Model/SubFiel
 sessions of operations on one record reached through every public path (PackedPointRecord / ScaleAwarePointRecord /
 LasData; rec[name], rec.name, old laspy names, sub-records, views derived by slicing views, whole-dimension
 assignment with growth / broadcast, copy_fields_from onto the current content).
+WORLDS (round 4; Model/SubFieldRec.v `wstep`): SEVERAL record objects the API hands out as distinct point sets, alive at the
+same time - every chunk of a reader (chunk_iterator / read_points / read, sources with and without readinto), laspy.read,
+laspy.mmap (twice on one file; the file itself), records built from bytes or over one bytearray (from_buffer), rec[slice] /
+las[slice] (views), rec[mask] / rec[index list] (copies), copy(), records built on rec.array, LasData(header, points=rec),
+las.points = rec, from_point_record / convert, SubFieldViews kept in a variable - then the operations above on any of them:
+after EVERY step EVERY object is compared, byte for byte, with what it must hold (an assignment on A changes B exactly where B
+is a view of the addressed points of A).
 Search: the property on the implementation (a Python statement of the expected bytes, no model involved)."""
 import json
 
@@ -14,7 +21,8 @@ from harness import common
 
 DRIVER = "c09"
 ASSUMPTIONS = ["numpy resolves an index expression (slice, mask, index list, integer) to positions; the model receives the positions",
-               "a slice of a numpy array (and of a SubFieldView / point record built on it) is a view: the harness resolves a chain of slices to positions with Python's range(n)[slice], the model composes them"]
+               "a slice of a numpy array (and of a SubFieldView / point record built on it) is a view: the harness resolves a chain of slices to positions with Python's range(n)[slice], the model composes them",
+               "worlds: which API route gives a view and which gives memory of its own is read off the unchanged code and pinned in OWorld (harness) / the WSlice-WGather-WNew choice of the model command; two mmaps of one file and the file are one memory (MAP_SHARED, Linux page cache); a reader sees the file as it was when it was opened"]
 
 
 def sub_fields():
@@ -81,7 +89,15 @@ def correspond(ctx):
                          "copy_fields_from a random record of the same or the other format family (same length, longer, shorter, one point, "
                          "empty) onto the current content; plus the chunk-by-chunk fill of every sub-field and repeated copies into a "
                          "preallocated record. After every operation the whole record is compared with the model's history and with the "
-                         "property (expected bytes, length, untouched other dimensions, zero appended points)")
+                         "property (expected bytes, length, untouched other dimensions, zero appended points). "
+                         "WORLDS: 2-8 objects alive together, made by chunk_iterator / read_points / read (path, BytesIO, file object, "
+                         "read()-only source; laspy.open and the LasReader constructor; equal-size chunks, seek), laspy.read, laspy.mmap "
+                         "(several of one file), records from bytes / over one bytearray (from_buffer with offsets), slices and selections "
+                         "of records and of LasData, copy(), records and LasData built on another record's array, las.points = rec, "
+                         "from_point_record / convert to any format, kept SubFieldViews, dropped objects; then view / whole-dimension / "
+                         "copy_fields_from operations (also from a live record of the same memory) on any object: after every step every "
+                         "live object and the mapped file are compared with the expected bytes (all dimensions) and, per packed column, "
+                         "with the model's world; non-trivial = at least two record objects alive")
     sfs = sub_fields()
     vals = values(ctx)
     masks = sorted({m for _, _, _, m in sfs})
@@ -193,6 +209,7 @@ def correspond(ctx):
         if not ok:
             dis.append({"kind": f"index expression {desc[2]}", "input": {"desc": desc, "cmd": cmd}, "model": mo, "impl": str(im)})
     dis += correspond_sessions(ctx)
+    dis += correspond_worlds(ctx)
     return dis
 
 
@@ -474,6 +491,13 @@ def check_op(fmt, raw_before, op, status, raw_after):
 
 def check_reads(host, fmt):
     """np.array(rec[name]) of every sub-field agrees with the packed bytes"""
+    try:
+        return _check_reads(host, fmt)
+    except Exception as ex:
+        return f"reading the sub-fields back raised {type(ex).__name__}: {str(ex)[:100]}"
+
+
+def _check_reads(host, fmt):
     rec = host.record()
     tab, _ = fmt_table(fmt)
     for name, c, m in tab:
@@ -845,6 +869,956 @@ def correspond_sessions(ctx):
     return dis
 
 
+# =====================================================================================================================
+# round 4: WORLDS - several record objects the API hands out as distinct point sets, alive at the same time
+# =====================================================================================================================
+# What each route hands out is read off the unchanged code and pinned here (OWorld): a record is (memory, positions).
+#   own memory  : a record built from bytes; zeros() / empty() / LasData(header) / laspy.create; laspy.read; every chunk of LasReader.read_points / chunk_iterator / read();
+#                 rec.copy(); rec[mask] / rec[index list] / rec[index array] / rec[tuple] (numpy advanced indexing);
+#                 PackedPointRecord.from_point_record; laspy.convert
+#   a view      : rec[slice] and las[slice] (any step, also negative); PackedPointRecord(rec.array, ..) /
+#                 ScaleAwarePointRecord(rec.array, ..) / LasData(header, points=rec) (a new record object over the same
+#                 array); from_buffer over the same bytearray; laspy.mmap (a view of the FILE's points: two mmaps of one
+#                 file, and the file itself, are the same memory); a SubFieldView kept by the caller
+#   the object  : las.points (and `las.points = rec` makes rec the record of las)
+# A whole-dimension assignment longer than the record (and copy_fields_from a longer record) gives the record NEW memory
+# (np.append): from then on it shares nothing; a refused one leaves it attached where it was.
+# The property across objects: an assignment on A changes B exactly where B is a view of the addressed points of A
+# (same memory, same position) and nowhere else; creating, reading or dropping an object changes no other object.
+import gc
+import io
+import os
+
+
+class _ReadOnly:
+    """a source that offers read/seek/tell only (no readinto)"""
+
+    def __init__(self, data):
+        self._b = io.BytesIO(data)
+
+    def read(self, n=-1):
+        return self._b.read(n)
+
+    def seek(self, *a):
+        return self._b.seek(*a)
+
+    def tell(self):
+        return self._b.tell()
+
+    def seekable(self):
+        return True
+
+    def close(self):
+        pass
+
+
+_DTYPES = {}
+
+
+def _dtype(fmt):
+    import laspy
+    if fmt not in _DTYPES:
+        _DTYPES[fmt] = laspy.PointFormat(fmt).dtype()
+    return _DTYPES[fmt]
+
+
+def _dim_order(fmt):
+    """dimension names in the order copy_fields_from visits them: the dtype's fields, a composed byte replaced by its sub-fields"""
+    tab, _ = fmt_table(fmt)
+    out = []
+    for f in _dtype(fmt).names:
+        subs = [nm for nm, c, _ in tab if c == f]
+        out.extend(subs if subs else [f])
+    return out
+
+
+def expect_raw(fmt, raw, op):
+    """THE PROPERTY on whole points: (status, all bytes of the record after the operation). The packed bytes come from
+    expect_op; the other dimensions keep their values (appended points are zero), copy_fields_from copies those the
+    source has (plain numpy assignment), up to the sub-field whose values do not fit."""
+    status, cols, n = expect_op(fmt, raw, op)
+    dt = _dtype(fmt)
+    old = np.frombuffer(raw, dtype=np.uint8).view(dt)
+    new = np.zeros(n, dtype=dt)
+    new[:len(old)] = old
+    if op["op"] == "copy":
+        tab, _ = fmt_table(fmt)
+        by_name = {nm: (c, m) for nm, c, m in tab}
+        sarr, scols = unpack_state(op["sfmt"], bytes.fromhex(op["src"]))
+        stab, _ = fmt_table(op["sfmt"])
+        sby = {nm: (c, m) for nm, c, m in stab}
+
+        def src_values(name):
+            if name in sby:
+                sc, sm = sby[name]
+                return np.array([(b & sm) >> lsb_of(sm) for b in scols[sc]], dtype=np.uint8)
+            if name in (sarr.dtype.names or ()):
+                return sarr[name]
+            return None
+        for name in _dim_order(fmt):
+            vs = src_values(name)
+            if vs is None:
+                continue
+            if name in by_name:
+                c, m = by_name[name]
+                if len(vs) and int(vs.max()) > (m >> lsb_of(m)):
+                    break                                        # OverflowError leaves copy_fields_from here
+                continue                                         # (the packed bytes are expect_op's)
+            try:
+                new[name][:] = vs
+            except ValueError:
+                pass                                             # shapes differ: this dimension is skipped
+    for c, bs in cols.items():
+        new[c] = np.array(bs, dtype=np.uint8)
+    return status, new.tobytes()
+
+
+class OWorld:
+    """the expected state of a world, in bytes (no laspy sub-field code, no Coq model)"""
+
+    def __init__(self, fmt, raw):
+        self.bufs = []                      # [fmt, structured array]
+        self.objs = {}                      # id -> entry {"buf", "pos", "origin", ("field", "mask", "col")}; two ids may share one
+        self.is_las = {}                    # id -> the object is a LasData (else a point record)
+        self.ubufs = {}                     # id -> the caller's bytearray a from_buffer record was built on
+        self.readers = {}                   # id -> {"cur": cursor, "buf": the points the reader sees}
+        self.fmt = fmt
+        self.base = raw
+        self.new_buf(fmt, raw)              # buffer 0: the points of the file
+
+    def new_buf(self, fmt, raw):
+        self.bufs.append([fmt, np.frombuffer(raw, dtype=np.uint8).copy().view(_dtype(fmt)).copy()])
+        return len(self.bufs) - 1
+
+    def fmt_of(self, e):
+        return self.bufs[e["buf"]][0]
+
+    def raw_of(self, e):
+        return self.bufs[e["buf"]][1][np.array(e["pos"], dtype=np.intp)].tobytes()
+
+    def n_of(self, e):
+        return len(e["pos"])
+
+    def entries(self):
+        seen, out = set(), []
+        for k, e in self.objs.items():
+            if id(e) not in seen:
+                seen.add(id(e))
+                out.append((k, e))
+        return out
+
+    def fresh(self, oid, fmt, raw, origin, las):
+        b = self.new_buf(fmt, raw)
+        self.objs[oid] = {"buf": b, "pos": list(range(len(self.bufs[b][1]))), "origin": origin}
+        self.is_las[oid] = las
+
+    def view(self, oid, e, idx, origin, las, **kw):
+        self.objs[oid] = {"buf": e["buf"], "pos": [e["pos"][i] for i in idx], "origin": origin, **kw}
+        self.is_las[oid] = las
+
+    def assign(self, e, op):
+        """an operation of the single-record property on the points of e, written through to e's memory"""
+        fmt, arr = self.bufs[e["buf"]]
+        status, new_raw = expect_raw(fmt, self.raw_of(e), op)
+        new = np.frombuffer(new_raw, dtype=np.uint8).view(arr.dtype)
+        if len(new) == len(e["pos"]):
+            if len(new):
+                arr[np.array(e["pos"], dtype=np.intp)] = new
+        else:                                                    # grown: new memory, shared with nobody
+            e["buf"] = self.new_buf(fmt, new_raw)
+            e["pos"] = list(range(len(new)))
+        return status
+
+    def apply(self, st):
+        """expected outcome of one step: 'ok' / 'err:<kind>'; updates the expected state"""
+        s = st["s"]
+        file_e = {"buf": 0, "pos": list(range(len(self.bufs[0][1])))}
+        if s == "mem":
+            self.fresh(st["id"], self.fmt, self.base, "created " + st["host"], st["host"] == "las")
+            if st["host"] == "buffer":
+                self.ubufs[st["id"]] = dict(self.objs[st["id"]])
+        elif s == "zeros":
+            self.fresh(st["id"], self.fmt, bytes(st["n"] * _itemsize(self.fmt)), "zeros " + st["host"], st["host"] in ("las", "create"))
+        elif s == "frombuf":
+            e = self.ubufs[st["of"]]
+            self.view(st["id"], e, list(range(st["offset"], st["offset"] + st["count"])), "from_buffer", False)
+        elif s == "read":
+            self.fresh(st["id"], self.fmt, self.raw_of(file_e), "read", True)
+        elif s == "reader":
+            # the reader sees the file as it was when it was opened (an in-memory source is a snapshot; a buffered file
+            # object has read ahead): the generator opens no reader on the path of a file that is modified through mmap
+            self.readers[st["id"]] = {"cur": 0, "buf": self.new_buf(self.fmt, self.raw_of(file_e))}
+        elif s == "seek":
+            self.readers[st["reader"]]["cur"] = st["pos"]
+        elif s in ("next", "readall"):
+            rd = self.readers[st["reader"]]
+            cur, total = rd["cur"], len(file_e["pos"])
+            k = total - cur if s == "readall" or st["n"] < 0 else min(st["n"], total - cur)
+            sub = {"buf": rd["buf"], "pos": list(range(cur, cur + k))}
+            self.fresh(st["id"], self.fmt, self.raw_of(sub), "chunk" if s == "next" else "rest", s == "readall")
+            rd["cur"] = cur + k
+        elif s == "mmap":
+            self.view(st["id"], file_e, file_e["pos"], "mmap", True)
+        elif s == "slice":
+            e = self.objs[st["of"]]
+            self.view(st["id"], e, list(range(len(e["pos"])))[slice(*st["v"])], "slice of " + e["origin"].split(" ")[0], self.is_las[st["of"]])
+        elif s == "fancy":
+            e = self.objs[st["of"]]
+            idx = resolve_key(st["key"], len(e["pos"]))
+            sub = {"buf": e["buf"], "pos": [e["pos"][i] for i in idx]}
+            self.fresh(st["id"], self.fmt_of(e), self.raw_of(sub), "selection", self.is_las[st["of"]])
+        elif s == "copy":
+            e = self.objs[st["of"]]
+            self.fresh(st["id"], self.fmt_of(e), self.raw_of(e), "copy", False)
+        elif s == "wrap":
+            e = self.objs[st["of"]]
+            self.view(st["id"], e, list(range(len(e["pos"]))), "wrapped", st["as"] == "las")
+        elif s == "setpoints":
+            self.objs[st["of"]] = self.objs[st["from"]]          # one and the same record from now on
+        elif s == "convert":
+            e = self.objs[st["of"]]
+            n = len(e["pos"])
+            status, raw = expect_raw(st["to"], bytes(n * _itemsize(st["to"])),
+                                     {"op": "copy", "sfmt": self.fmt_of(e), "src": self.raw_of(e).hex()})
+            if status != "ok":
+                return status
+            self.fresh(st["id"], st["to"], raw, "converted", st["how"] == "convert")
+        elif s == "hold":
+            e = self.objs[st["of"]]
+            pos, _ = view_positions({"chain": st["chain"]}, len(e["pos"]))
+            tab, _ = fmt_table(self.fmt_of(e))
+            c, m = {nm: (c, m) for nm, c, m in tab}[st["field"]]
+            self.view(st["id"], e, pos, "kept view", False, field=st["field"], col=c, mask=m)
+        elif s == "drop":
+            del self.objs[st["id"]]
+            del self.is_las[st["id"]]
+        elif s == "op":
+            return self.assign(self.objs[st["on"]], st["op"])
+        elif s == "copyfrom":
+            src = self.objs[st["src"]]
+            return self.assign(self.objs[st["on"]], {"op": "copy", "sfmt": self.fmt_of(src), "src": self.raw_of(src).hex()})
+        elif s == "vset":
+            e = self.objs[st["view"]]
+            return self.assign(e, {"op": "view", "field": e["field"], "path": "item", "chain": [], "key": st["key"], "value": st["value"]})
+        else:
+            raise KeyError(s)
+        return "ok"
+
+
+class _Obj:
+    """what apply_op needs of a Host, for an object of a world"""
+
+    def __init__(self, obj, las):
+        self.obj, self.kind = obj, ("las" if las else "packed")
+
+    def record(self):
+        return self.obj.points if self.kind == "las" else self.obj
+
+
+class AWorld:
+    """the same steps on the implementation, through laspy's public API"""
+
+    def __init__(self, fmt, raw, tmpdir):
+        self.fmt, self.raw, self.tmpdir = fmt, raw, tmpdir
+        self.objs, self.views, self.readers, self.iters, self.mmaps, self.open_files = {}, {}, {}, {}, [], []
+        self.bufs = {}
+        self._file, self.path = None, None
+
+    def file_bytes(self):
+        import laspy
+        if self.path is not None:
+            with open(self.path, "rb") as f:
+                return f.read()
+        if self._file is None:
+            las = laspy.create(point_format=self.fmt)
+            arr = np.frombuffer(self.raw, dtype=np.uint8).copy().view(las.header.point_format.dtype()).copy()
+            las.points = laspy.ScaleAwarePointRecord(arr, las.header.point_format, las.header.scales, las.header.offsets)
+            bio = io.BytesIO()
+            las.write(bio)
+            self._file = bio.getvalue()
+        return self._file
+
+    def file_path(self):
+        if self.path is None:
+            data = self.file_bytes()
+            os.makedirs(self.tmpdir, exist_ok=True)
+            path = os.path.join(self.tmpdir, "w.las")
+            with open(path, "wb") as f:
+                f.write(data)
+            self.path = path
+        return self.path
+
+    def file_points(self):
+        """the bytes of the points as they are in the file now"""
+        data = self.file_bytes()
+        k = len(self.raw)
+        off = int.from_bytes(data[96:100], "little")
+        return data[off:off + k]
+
+    def source(self, kind):
+        if kind == "path":
+            return self.file_path()
+        if kind == "fileobj":
+            f = open(self.file_path(), "rb")
+            self.open_files.append(f)
+            return f
+        if kind == "bytesio":
+            return io.BytesIO(self.file_bytes())
+        return _ReadOnly(self.file_bytes())
+
+    def rec(self, oid):
+        o = self.objs[oid]
+        return o.record()
+
+    def apply(self, st):
+        import laspy
+        try:
+            return self._apply(st, laspy)
+        except Exception as ex:
+            return "err:" + common.exc_kind(ex)
+
+    def _apply(self, st, laspy):
+        s = st["s"]
+        if s == "mem":
+            pf = laspy.PointFormat(self.fmt)
+            arr = np.frombuffer(self.raw, dtype=np.uint8).copy().view(pf.dtype()).copy()
+            if st["host"] == "buffer":
+                buf = bytearray(self.raw)
+                self.bufs[st["id"]] = (buf, pf)
+                self.objs[st["id"]] = _Obj(laspy.PackedPointRecord.from_buffer(buf, pf), False)
+            else:
+                h = Host(st["host"], self.fmt, self.raw)
+                self.objs[st["id"]] = _Obj(h.obj, st["host"] == "las")
+        elif s == "zeros":
+            pf = laspy.PointFormat(self.fmt)
+            if st["host"] == "packed":
+                new = laspy.PackedPointRecord.zeros(st["n"], pf) if st["n"] else laspy.PackedPointRecord.empty(pf)
+            elif st["host"] == "scaled":
+                new = laspy.ScaleAwarePointRecord.zeros(st["n"], point_format=pf, scales=[1.0, 1.0, 1.0], offsets=[0.0, 0.0, 0.0])
+            elif st["host"] == "las":
+                header = laspy.LasHeader(point_format=self.fmt, version=laspy.create(point_format=self.fmt).header.version)
+                header.point_count = st["n"]
+                new = laspy.LasData(header)
+            else:
+                new = laspy.create(point_format=self.fmt)
+                new.points = laspy.ScaleAwarePointRecord.zeros(st["n"], header=new.header)
+            self.objs[st["id"]] = _Obj(new, st["host"] in ("las", "create"))
+        elif s == "frombuf":
+            buf, pf = self.bufs[st["of"]]
+            self.objs[st["id"]] = _Obj(laspy.PackedPointRecord.from_buffer(buf, pf, count=st["count"], offset=st["offset"] * pf.size), False)
+        elif s == "read":
+            src = self.source(st["src"])
+            if st.get("via") == "open":
+                with laspy.open(src) as rd:
+                    las = rd.read()
+            else:
+                las = laspy.read(src)
+            self.objs[st["id"]] = _Obj(las, True)
+        elif s == "reader":
+            src = self.source(st["src"])
+            if st.get("via") == "ctor":
+                if isinstance(src, str):
+                    src = open(src, "rb")
+                rd = laspy.LasReader(src)
+            else:
+                rd = laspy.open(src)
+            self.readers[st["id"]] = rd
+        elif s == "seek":
+            self.readers[st["reader"]].seek(st["pos"])
+        elif s == "next":
+            rd = self.readers[st["reader"]]
+            if st["how"] == "iter":
+                key = (st["reader"], st["n"])
+                if key not in self.iters:
+                    self.iters[key] = rd.chunk_iterator(st["n"])
+                pts = next(self.iters[key])
+            else:
+                pts = rd.read_points(st["n"])
+            self.objs[st["id"]] = _Obj(pts, False)
+        elif s == "readall":
+            self.objs[st["id"]] = _Obj(self.readers[st["reader"]].read(), True)
+        elif s == "mmap":
+            mm = laspy.mmap(self.file_path())
+            self.mmaps.append(mm)
+            self.objs[st["id"]] = _Obj(mm, True)
+        elif s == "slice":
+            o = self.objs[st["of"]]
+            self.objs[st["id"]] = _Obj(o.obj[slice(*st["v"])], o.kind == "las")
+        elif s == "fancy":
+            o = self.objs[st["of"]]
+            k = st["key"]
+            self.objs[st["id"]] = _Obj(o.obj[mk_key(k)], o.kind == "las")
+        elif s == "copy":
+            self.objs[st["id"]] = _Obj(self.rec(st["of"]).copy(), False)
+        elif s == "wrap":
+            r = self.rec(st["of"])
+            if st["as"] == "packed":
+                new = laspy.PackedPointRecord(r.array, r.point_format)
+            elif st["as"] == "scaled":
+                new = laspy.ScaleAwarePointRecord(r.array, r.point_format, [1.0, 1.0, 1.0], [0.0, 0.0, 0.0])
+            else:
+                o = self.objs[st["of"]]
+                header = o.obj.header if o.kind == "las" else laspy.create(point_format=r.point_format.id).header
+                new = laspy.LasData(header, points=r)
+            self.objs[st["id"]] = _Obj(new, st["as"] == "las")
+        elif s == "setpoints":
+            self.objs[st["of"]].obj.points = self.rec(st["from"])
+            self.objs[st["from"]] = _Obj(self.objs[st["of"]].obj.points, False)
+        elif s == "convert":
+            o = self.objs[st["of"]]
+            if st["how"] == "convert":
+                new = _Obj(laspy.convert(o.obj, point_format_id=st["to"]), True)
+            else:
+                new = _Obj(laspy.PackedPointRecord.from_point_record(o.record(), laspy.PointFormat(st["to"])), False)
+            self.objs[st["id"]] = new
+        elif s == "hold":
+            o = self.objs[st["of"]]
+            obj, path, name = o.obj, st["path"], st["field"]
+            if path.startswith("points_"):
+                obj, path = o.record(), path[len("points_"):]
+            view = (obj[name] if path == "item" else getattr(obj, name) if path == "attr"
+                    else obj[OLD_NAMES[name]] if path == "old" else getattr(obj, OLD_NAMES[name]))
+            for sl in st["chain"]:
+                view = view[slice(*sl)]
+            self.views[st["id"]] = view
+        elif s == "drop":
+            self.objs.pop(st["id"], None)
+            self.views.pop(st["id"], None)
+        elif s == "op":
+            return apply_op(self.objs[st["on"]], st["op"])
+        elif s == "copyfrom":
+            self.rec(st["on"]).copy_fields_from(self.rec(st["src"]))
+        elif s == "vset":
+            self.views[st["view"]][mk_key(st["key"])] = mk_value(st["value"])
+        else:
+            raise KeyError(s)
+        return "ok"
+
+    def raw_of(self, oid):
+        return self.rec(oid).array.tobytes()
+
+    def close(self):
+        for rd in self.readers.values():
+            try:
+                rd.close()
+            except Exception:
+                pass
+        self.objs.clear()
+        self.views.clear()
+        self.iters.clear()
+        self.bufs.clear()
+        if self.mmaps:
+            gc.collect()                     # a LasData in a reference cycle would keep the mapping exported
+        for mm in self.mmaps:
+            try:
+                mm.close()
+            except Exception:
+                pass
+        for f in self.open_files:
+            try:
+                f.close()
+            except Exception:
+                pass
+
+
+_TMP = os.path.join("/var/tmp", "c09_w_%d" % os.getpid())
+
+
+def _rm_tmp():
+    import shutil
+    shutil.rmtree(_TMP, ignore_errors=True)
+
+
+import atexit  # noqa: E402
+atexit.register(_rm_tmp)
+
+
+def step_class(st):
+    if st["s"] == "op":
+        o = st["op"]
+        return {"view": "view assignment", "seq": "whole-dimension assignment", "copy": "copy_fields_from"}[o["op"]]
+    return {"copyfrom": "copy_fields_from a live record", "vset": "assignment through a kept view", "next": "reading a chunk",
+            "readall": "reading the rest", "read": "reading the file", "mem": "creating a record", "convert": "conversion",
+            "fancy": "selection", "slice": "slice", "copy": "copy", "wrap": "wrapping", "hold": "keeping a view",
+            "frombuf": "from_buffer", "mmap": "mmap", "setpoints": "las.points = record", "drop": "dropping an object",
+            "reader": "opening a reader", "seek": "seek", "zeros": "creating a zero record"}[st["s"]]
+
+
+def plain_tok(sfmt, raw, dfmt):
+    """the source's dimensions that are not bit-packed there but are sub-fields of the destination format"""
+    sarr, _ = unpack_state(sfmt, raw)
+    stab, _ = fmt_table(sfmt)
+    dtab, _ = fmt_table(dfmt)
+    snames = {nm for nm, _, _ in stab}
+    plain = [f"{nm}={common.zl(int(x) for x in sarr[nm])}" for nm, _, _ in dtab if nm not in snames and nm in sarr.dtype.names]
+    return "|".join(plain) or "-"
+
+
+def _ilist(ix):
+    return ",".join(map(str, ix)) or "e"
+
+
+class WorldModel:
+    """the steps of a world in the model driver's syntax (sf_world): object ids -> indices of the model's objects.
+    Object 0 is the file's points; a reader is the copy of them it sees; a caller's bytearray is a view that is never assigned."""
+
+    def __init__(self, ow):
+        self.ops = [f"N!{ow.fmt}!{cols_tok(ow.fmt, ow.base)}"]
+        self.count = 1
+        self.idx = {}
+
+    def tokens(self, ow, st):
+        """[(token, id the new object gets or None)] for one step, from the state BEFORE it"""
+        s, ix = st["s"], self.idx
+        nfile = len(ow.bufs[0][1])
+        L = len(ow.objs[st["of"]]["pos"]) if "of" in st and st["of"] in ow.objs else 0
+        if s == "mem":
+            out = [(f"N!{ow.fmt}!{cols_tok(ow.fmt, ow.base)}", st["id"])]
+            if st["host"] == "buffer":
+                out.append(("L!@!-", "ubuf:" + st["id"]))
+            return out
+        if s == "zeros":
+            return [(f"N!{ow.fmt}!{cols_tok(ow.fmt, bytes(st['n'] * _itemsize(ow.fmt)))}", st["id"])]
+        if s == "frombuf":
+            return [(f"L!{ix['ubuf:' + st['of']]}!{_ilist(range(st['offset'], st['offset'] + st['count']))}", st["id"])]
+        if s == "read":
+            return [(f"G!0!{_ilist(range(nfile))}", st["id"])]
+        if s == "reader":
+            return [(f"G!0!{_ilist(range(nfile))}", "r:" + st["id"])]
+        if s in ("next", "readall"):
+            cur = ow.readers[st["reader"]]["cur"]
+            k = nfile - cur if s == "readall" or st["n"] < 0 else min(st["n"], nfile - cur)
+            return [(f"G!{ix['r:' + st['reader']]}!{_ilist(range(cur, cur + k))}", st["id"])]
+        if s == "mmap":
+            return [("L!0!-", st["id"])]
+        if s == "slice":
+            return [(f"L!{ix[st['of']]}!{_ilist(list(range(L))[slice(*st['v'])])}", st["id"])]
+        if s == "fancy":
+            return [(f"G!{ix[st['of']]}!{_ilist(resolve_key(st['key'], L))}", st["id"])]
+        if s == "copy":
+            return [(f"G!{ix[st['of']]}!{_ilist(range(L))}", st["id"])]
+        if s == "wrap":
+            return [(f"L!{ix[st['of']]}!-", st["id"])]
+        if s == "convert":
+            e = ow.objs[st["of"]]
+            return [(f"K!{ix[st['of']]}!{st['to']}!{plain_tok(ow.fmt_of(e), ow.raw_of(e), st['to'])}", st["id"])]
+        if s == "hold":
+            _, chain = view_positions({"chain": st["chain"]}, L)
+            return [(f"L!{ix[st['of']]}!{'/'.join(_ilist(c) for c in chain) or '-'}", st["id"])]
+        if s == "op":
+            e = ow.objs[st["on"]]
+            return [(f"A!{ix[st['on']]}!{model_op(ow.fmt_of(e), len(e['pos']), st['op'])}", None)]
+        if s == "copyfrom":
+            e, src = ow.objs[st["on"]], ow.objs[st["src"]]
+            return [(f"F!{ix[st['on']]}!{ix[st['src']]}!{plain_tok(ow.fmt_of(src), ow.raw_of(src), ow.fmt_of(e))}", None)]
+        if s == "vset":
+            e = ow.objs[st["view"]]
+            op = {"op": "view", "field": e["field"], "path": "item", "chain": [], "key": st["key"], "value": st["value"]}
+            return [(f"A!{ix[st['view']]}!{model_op(ow.fmt_of(e), len(e['pos']), op)}", None)]
+        if s == "setpoints":
+            ix[st["of"]] = ix[st["from"]]
+        return []
+
+    def commit(self, toks, status):
+        """after the step: the objects it created exist (unless the step was refused)"""
+        for tok, oid in toks:
+            self.ops.append(tok.replace("@", str(self.count - 1)))
+            if oid is not None and status == "ok":
+                self.idx[oid] = self.count
+                self.count += 1
+        return len(self.ops) - 1 if toks else None
+
+
+def run_world(sess, upto=None):
+    """runs a world on the implementation and on the expected state in lockstep.
+    Returns (failure or None, trace) - trace = [(step, expected status, {id: (fmt, bytes the implementation holds)}, index of the
+    step's last model operation, {id: model object}, the model operations)] for the model comparison."""
+    fmt, raw = sess["format"], bytes.fromhex(sess["raw"])
+    ow, aw = OWorld(fmt, raw), AWorld(fmt, raw, _TMP)
+    trace = []
+    secondary = None
+    wm = WorldModel(ow)
+
+    def failed(f, st):
+        """an ASSIGNMENT that breaks the property ends the run. A step that only creates / reads / drops an object and
+        changes another one is kept as the result if no assignment fails later: the expected state is set to what the
+        objects hold now and the run goes on (the assignments are judged on the state they start from)."""
+        nonlocal secondary
+        if st["s"] in ("op", "copyfrom", "vset") or "outcome" in f["kind"]:
+            return True
+        if secondary is None:
+            secondary = f
+        for k, e in ow.entries():
+            if "field" in e:
+                continue
+            have = np.frombuffer(aw.raw_of(k), dtype=np.uint8).view(ow.bufs[e["buf"]][1].dtype)
+            if len(have) == len(e["pos"]):
+                if len(have):
+                    ow.bufs[e["buf"]][1][np.array(e["pos"], dtype=np.intp)] = have
+            else:
+                e["buf"], e["pos"] = ow.new_buf(ow.fmt_of(e), have.tobytes()), list(range(len(have)))
+        return False
+    try:
+        for i, st in enumerate(sess["steps"][:upto]):
+            before = {k: ow.raw_of(e) for k, e in ow.entries()}
+            toks = wm.tokens(ow, st)
+            exp = ow.apply(st)
+            mstep = wm.commit(toks, exp)
+            got = aw.apply(st)
+            target = st.get("on") or st.get("view") or st.get("id")
+            tgt_e = ow.objs.get(target)
+            t_origin = tgt_e["origin"] if tgt_e else "-"
+            if got != exp:
+                return ({"kind": f"objects: {step_class(st)} on {t_origin}: outcome", "input": {**sess, "steps": sess["steps"][:i + 1]},
+                         "observed": f"step {i} ({st['s']}): outcome {got}, expected {exp}"}, trace)
+            state = {k: (ow.fmt_of(e), aw.raw_of(k)) for k, e in ow.entries() if "field" not in e}
+            entry = (st, exp, state, mstep, {k: wm.idx[k] for k in state}, wm.ops)
+            for k, e in ow.entries():
+                want = ow.raw_of(e)
+                if "field" in e:                                  # a kept SubFieldView: its packed byte and its values
+                    v = aw.views[k]
+                    col = np.frombuffer(want, dtype=np.uint8).view(ow.bufs[e["buf"]][1].dtype)[e["col"]]
+                    ok = (np.asarray(v.array).tobytes() == col.tobytes()
+                          and np.array(v).astype(np.int64).tolist() == ((col.astype(np.int64) & e["mask"]) >> lsb_of(e["mask"])).tolist())
+                    have = None
+                else:
+                    have = state[k][1]
+                    ok = have == want
+                if not ok:
+                    rel = ("the target" if e is tgt_e else
+                           f"a {e['origin']} that was not addressed" if before.get(k) == want else f"a {e['origin']} viewing the addressed points (not updated)")
+                    where = ""
+                    if have is not None and len(have) == len(want):
+                        sz = _itemsize(ow.fmt_of(e))
+                        j = next(j for j in range(len(want)) if have[j] != want[j])
+                        names = _dtype(ow.fmt_of(e))
+                        fld = next((f for f in names.names if names.fields[f][1] <= j % sz < names.fields[f][1] + names.fields[f][0].itemsize), "?")
+                        where = f": point {j // sz} dimension {fld} is {have[j]:#04x}, expected {want[j]:#04x}"
+                    elif have is not None:
+                        where = f": {len(have) // max(1, _itemsize(ow.fmt_of(e)))} points, expected {len(want) // max(1, _itemsize(ow.fmt_of(e)))}"
+                    f = {"kind": f"objects: {step_class(st)} on {t_origin} changes {rel.split(' (')[0] if e is not tgt_e else 'the target wrongly'}",
+                         "input": {**sess, "steps": sess["steps"][:i + 1]},
+                         "observed": f"step {i} ({step_class(st)} on object {target}): object {k} = {rel}{where}"}
+                    if failed(f, st):
+                        return f, trace + [entry]                 # the model is asked about the failing step too
+                    break
+            if aw.path is not None and aw.file_points() != ow.bufs[0][1].tobytes():
+                return ({"kind": f"objects: {step_class(st)} on {t_origin}: the mapped file", "input": {**sess, "steps": sess["steps"][:i + 1]},
+                         "observed": f"step {i}: the points in the file differ from what the mmap views say"}, trace)
+            if st["s"] in ("op", "copyfrom") and tgt_e is not None:
+                why = check_reads(aw.objs[target], ow.fmt_of(tgt_e))
+                if why:
+                    return ({"kind": f"objects: {step_class(st)} on {t_origin}: reads", "input": {**sess, "steps": sess["steps"][:i + 1]}, "observed": why}, trace)
+            trace.append(entry)
+        return secondary, trace
+    finally:
+        aw.close()
+
+
+def shrink_world(sess, fail):
+    """drop the steps the failure does not need (a step another one refers to stays)"""
+    steps = list(sess["steps"])
+    i = len(steps) - 2
+    while i >= 0:
+        cand = steps[:i] + steps[i + 1:]
+        try:
+            f2, _ = run_world({**sess, "steps": cand})
+        except Exception:
+            f2 = None
+        if f2 and f2["kind"] == fail["kind"]:
+            steps = f2["input"]["steps"]
+            fail = f2
+            i = min(i, len(steps) - 1)
+        i -= 1
+    return fail
+
+
+# ---------------------------------------------------------------------------------------------------------------------
+# worlds: generator
+# ---------------------------------------------------------------------------------------------------------------------
+SOURCES = ["path", "bytesio", "fileobj", "readonly"]
+
+
+class WorldGen:
+    def __init__(self, rng, fmt=None, n=None):
+        self.rng = rng
+        self.fmt = rng.randrange(11) if fmt is None else fmt
+        self.n = rng.choice([1, 2, 3, 4, 6, 8, 9, 12]) if n is None else n
+        self.raw = rand_bytes(rng, self.n * _itemsize(self.fmt))
+        self.ow = OWorld(self.fmt, self.raw)
+        self.steps = []
+        self.k = 0
+        self.has_buffer = []
+        self.maps = rng.random() < 0.3       # this world maps the file: its readers get in-memory sources
+
+    def new_id(self):
+        self.k += 1
+        return f"o{self.k}"
+
+    def add(self, st):
+        status = self.ow.apply(st)
+        self.steps.append(st)
+        return status
+
+    def session(self):
+        return {"world": 1, "format": self.fmt, "raw": self.raw.hex(), "steps": self.steps}
+
+    def records(self):
+        return [k for k, e in self.ow.objs.items() if "field" not in e]
+
+    def root(self):
+        rng = self.rng
+        r = rng.random()
+        if r < 0.3:
+            host = rng.choice(HOSTS + ["buffer"])
+            oid = self.new_id()
+            self.add({"s": "mem", "id": oid, "host": host})
+            if host == "buffer":
+                self.has_buffer.append(oid)
+        elif r < 0.36:
+            self.add({"s": "zeros", "id": self.new_id(), "host": rng.choice(["packed", "scaled", "las", "create"]), "n": rng.choice([0, 1, self.n, self.n])})
+        elif r < 0.47:
+            self.add({"s": "read", "id": self.new_id(), "src": rng.choice(SOURCES), "via": rng.choice(["read", "open"])})
+        elif r < 0.6 and self.maps:
+            self.add({"s": "mmap", "id": self.new_id()})
+        else:
+            self.reader()
+
+    def reader(self):
+        rng = self.rng
+        rid = "r%d" % (len(self.ow.readers) + 1)
+        self.add({"s": "reader", "id": rid, "src": rng.choice(SOURCES[1::2] if self.maps else SOURCES), "via": rng.choice(["open", "open", "ctor"])})
+        self.chunk(rid)
+        self.chunk(rid)
+
+    def chunk(self, rid=None):
+        rng = self.rng
+        if rid is None:
+            rid = rng.choice(sorted(self.ow.readers))
+        cur = self.ow.readers[rid]["cur"]
+        left = self.n - cur
+        if left <= 0 and rng.random() < 0.6:
+            self.add({"s": "seek", "reader": rid, "pos": rng.randrange(self.n)})
+            cur = self.ow.readers[rid]["cur"]
+            left = self.n - cur
+        prev = [st["n"] for st in self.steps if st["s"] == "next" and st["reader"] == rid]
+        if prev and rng.random() < 0.7:
+            k = prev[-1]                                         # chunks of the same size, like an iteration
+        else:
+            k = rng.choice([1, 2, 3, max(1, self.n // 3), max(1, self.n // 2), self.n])
+        if rng.random() < 0.07:
+            self.add({"s": "readall", "id": self.new_id(), "reader": rid})
+            return
+        how = rng.choice(["iter", "read_points"]) if left > 0 else "read_points"
+        self.add({"s": "next", "id": self.new_id(), "reader": rid, "n": k, "how": how})
+
+    def derive(self):
+        rng = self.rng
+        recs = self.records()
+        a = rng.choice(recs)
+        e = self.ow.objs[a]
+        L, fmt, las = len(e["pos"]), self.ow.fmt_of(e), self.ow.is_las[a]
+        r = rng.random()
+        if self.has_buffer and rng.random() < 0.3:
+            b = rng.choice(self.has_buffer)
+            LB = len(self.ow.ubufs[b]["pos"])
+            off = rng.randrange(LB)
+            self.add({"s": "frombuf", "id": self.new_id(), "of": b, "offset": off, "count": rng.randrange(0, LB - off + 1)})
+        elif r < 0.25:
+            self.add({"s": "slice", "id": self.new_id(), "of": a, "v": gen_slice(rng, L)})
+        elif r < 0.4:
+            k = gen_key(rng, L, False)
+            while k["k"] not in ("mask", "list", "arr"):
+                k = gen_key(rng, L, False) if L else {"k": "mask", "v": []}
+            self.add({"s": "fancy", "id": self.new_id(), "of": a, "key": k})
+        elif r < 0.5:
+            self.add({"s": "copy", "id": self.new_id(), "of": a})
+        elif r < 0.65:
+            self.add({"s": "wrap", "id": self.new_id(), "of": a, "as": rng.choice(["packed", "scaled", "las"])})
+        elif r < 0.75:
+            to = rng.choice([fmt, rng.randrange(11), rng.choice([f for f in range(11) if (f >= 6) == (fmt >= 6)])])
+            how = "convert" if las and rng.random() < 0.6 else "from_point_record"
+            self.add({"s": "convert", "id": self.new_id(), "of": a, "to": to, "how": how})
+        elif r < 0.82:
+            lases = [k for k in recs if self.ow.is_las[k] and self.ow.objs[k]["origin"] not in ("mmap", "rest") and self.ow.fmt_of(self.ow.objs[k]) == fmt]
+            same = [k for k in recs if not self.ow.is_las[k] and self.ow.fmt_of(self.ow.objs[k]) == fmt and self.ow.objs[k] is not e]
+            if las and e["origin"] not in ("mmap", "rest") and same:
+                self.add({"s": "setpoints", "of": a, "from": rng.choice(same)})
+            elif lases and not las and self.ow.objs[lases[0]] is not e:
+                self.add({"s": "setpoints", "of": lases[0], "from": a})
+        else:
+            tab, _ = fmt_table(fmt)
+            name = rng.choice(tab)[0]
+            paths = ["item", "attr"] + (["old", "old_attr"] if name in OLD_NAMES else [])
+            path = rng.choice(paths)
+            if las and rng.random() < 0.5:
+                path = "points_" + path
+            chain, LL = [], L
+            for _ in range(rng.choice([0, 0, 1, 2])):
+                sl = gen_slice(rng, LL)
+                chain.append(sl)
+                LL = len(range(LL)[slice(*sl)])
+            self.add({"s": "hold", "id": self.new_id(), "of": a, "field": name, "path": path, "chain": chain})
+
+    def op(self, on=None):
+        rng = self.rng
+        views = [k for k, e in self.ow.objs.items() if "field" in e]
+        if on is None and views and rng.random() < 0.25:
+            v = rng.choice(views)
+            e = self.ow.objs[v]
+            L = len(e["pos"])
+            maxv = e["mask"] >> lsb_of(e["mask"])
+            key = gen_key(rng, L, False)
+            idx = resolve_key(key, L)
+            scalar = key["k"] in ("int", "npint") or rng.random() < 0.5 or not idx
+            self.add({"s": "vset", "view": v, "key": key, "value": gen_value(rng, len(idx), maxv, rng.random() < 0.12 and bool(idx), scalar)})
+            return
+        a = on or rng.choice(self.records())
+        e = self.ow.objs[a]
+        L, fmt = len(e["pos"]), self.ow.fmt_of(e)
+        kind = "las" if self.ow.is_las[a] else "packed"
+        r = rng.random()
+        if r < 0.6:
+            op = gen_view_op(rng, fmt, kind, L)
+        elif r < 0.8:
+            op = gen_seq_op(rng, fmt, kind, L)
+        elif r < 0.88:
+            op = gen_copy_op(rng, fmt, L)
+        else:
+            others = [k for k in self.records() if self.ow.objs[k] is not e]
+            if others:
+                self.add({"s": "copyfrom", "on": a, "src": rng.choice(others)})
+                return
+            op = gen_view_op(rng, fmt, kind, L)
+        self.add({"s": "op", "on": a, "op": op})
+
+
+def gen_world(rng):
+    g = WorldGen(rng)
+    g.root()
+    if rng.random() < 0.4:
+        g.root()
+    for _ in range(rng.choice([3, 4, 5, 6, 8])):
+        r = rng.random()
+        if r < 0.3 and g.records():
+            g.derive()
+        elif r < 0.42 and g.ow.readers:
+            g.chunk()
+        elif r < 0.45 and len(g.ow.objs) > 1:
+            k = rng.choice(sorted(g.ow.objs))
+            if g.ow.objs[k]["origin"] != "mmap" and k not in g.has_buffer and sum(1 for kk, ee in g.ow.objs.items() if ee is g.ow.objs[k]) == 1:
+                g.add({"s": "drop", "id": k})
+        elif g.records():
+            g.op()
+    return g.session()
+
+
+def pattern_worlds(rng):
+    """the patterns of use, systematically: a file read chunk by chunk with every chunk kept (equal sizes, every kind of
+    source, iterator and read_points), then a sub-field assignment on every chunk; a record and its slices / selections /
+    copies / conversions, an assignment on each"""
+    out = []
+    for fmt in range(11):
+        tab, _ = fmt_table(fmt)
+        for src in SOURCES:
+            size = rng.choice([1, 2, 3, 4])
+            g = WorldGen(rng, fmt, size * rng.choice([2, 3]) + rng.choice([0, 0, 1]))
+            g.add({"s": "reader", "id": "r1", "src": src, "via": rng.choice(["open", "ctor"])})
+            how = rng.choice(["iter", "read_points"])
+            while g.ow.readers["r1"]["cur"] < g.n:
+                g.add({"s": "next", "id": g.new_id(), "reader": "r1", "n": size, "how": how})
+            ids = g.records()
+            rng.shuffle(ids)
+            for a in ids[:3]:
+                g.op(on=a)
+            out.append(g.session())
+        g = WorldGen(rng, fmt)
+        g.add({"s": "mem", "id": "o0", "host": rng.choice(HOSTS)})
+        g.k = 1
+        L = g.n
+        g.add({"s": "slice", "id": g.new_id(), "of": "o0", "v": rng.choice([[None, None, 2], [1, None, None], [None, None, -1], [0, max(1, L // 2), None]])})
+        g.add({"s": "fancy", "id": g.new_id(), "of": "o0", "key": {"k": "mask", "v": [i % 2 == 0 for i in range(L)]}})
+        g.add({"s": "copy", "id": g.new_id(), "of": "o0"})
+        g.add({"s": "wrap", "id": g.new_id(), "of": "o0", "as": rng.choice(["packed", "scaled", "las"])})
+        g.add({"s": "convert", "id": g.new_id(), "of": "o0", "to": fmt, "how": "from_point_record"})
+        for host in ("packed", "las"):
+            g.add({"s": "zeros", "id": g.new_id(), "host": host, "n": g.n})
+        for a in list(g.records()):
+            g.op(on=a)
+        out.append(g.session())
+        g = WorldGen(rng, fmt)
+        g.maps = True
+        g.add({"s": "mmap", "id": "o0"})
+        g.k = 1
+        g.add({"s": "mmap", "id": g.new_id()})
+        g.add({"s": "slice", "id": g.new_id(), "of": "o0", "v": [None, None, rng.choice([1, 2, -1])]})
+        g.add({"s": "read", "id": g.new_id(), "src": "path", "via": "read"})
+        for a in list(g.records()):
+            g.op(on=a)
+        g.add({"s": "read", "id": g.new_id(), "src": "fileobj", "via": "open"})
+        out.append(g.session())
+    return out
+
+
+def world_failures(worlds, ctx=None, keep=None):
+    out = []
+    for sess in worlds:
+        try:
+            fail, trace = run_world(sess)
+        except Exception as ex:                                   # the objects could not even be observed
+            import traceback
+            tb = traceback.extract_tb(ex.__traceback__)
+            fail, trace = {"kind": "objects: observing the objects raised", "input": sess,
+                           "observed": f"{type(ex).__name__}: {str(ex)[:120]} at {tb[-1].filename.split('/')[-1]}:{tb[-1].lineno}"}, []
+        if keep is not None:
+            keep.append((sess, trace, fail))
+        if ctx is not None:
+            for st in sess["steps"]:
+                ctx.count("world:" + st["s"] + (":" + st["op"]["op"] if st["s"] == "op" else ""))
+        if fail:
+            out.append(fail)
+    return out
+
+
+_WORLD_FAILS = []
+
+
+def correspond_worlds(ctx):
+    """worlds on the implementation, on the property (failures kept for `search`) and on the model (wrun)"""
+    worlds = pattern_worlds(ctx.rng) + [gen_world(ctx.rng) for _ in range(ctx.n(450, 8000))]
+    kept = []
+    _WORLD_FAILS.extend(world_failures(worlds, ctx, kept))
+    cmds = ["sf_world " + ";".join(trace[-1][5][:trace[-1][3] + 1] if trace[-1][3] is not None else trace[-1][5])
+            for _, trace, _ in kept if trace]
+    outs = iter(common.run_model(cmds, name=DRIVER))
+    dis = []
+    for sess, trace, _ in kept:
+        if not trace:
+            continue
+        mo = next(outs).split(";")
+        ctx.case("world " + json.dumps(sess["steps"], sort_keys=True)[:400], nontrivial=len(trace[-1][2]) > 1,
+                 sample={"world": {**sess, "raw": sess["raw"][:32] + "..."}} if len(ctx.samples) < 8 and len(trace) > 3 else None)
+        for i, (st, exp, state, mstep, midx, _) in enumerate(trace):
+            if mstep is None or mstep >= len(mo):
+                continue
+            ctx.traces += 1
+            mstatus, mobjs = mo[mstep].split("@")
+            mobjs = mobjs.split("#")
+            bad = None
+            if mstatus != exp:
+                bad = (mstatus, exp)
+            else:
+                for k, (f, have) in state.items():
+                    if mobjs[midx[k]] != cols_tok(f, have):
+                        bad = (f"object {k}: " + mobjs[midx[k]][:120], cols_tok(f, have)[:120])
+                        break
+            if bad:
+                dis.append({"kind": "world " + step_class(st), "input": {"world": {**sess, "steps": sess["steps"][:i + 1]}, "step": i},
+                            "model": str(bad[0])[:200], "impl": str(bad[1])[:200]})
+                break
+    return dis
+
+
 def oracle_element(fmt, name, composed, m, v, rng):
     """property on the implementation, no model involved"""
     lsb = (m & -m).bit_length() - 1
@@ -870,110 +1844,125 @@ def oracle_element(fmt, name, composed, m, v, rng):
     return None
 
 
-def oracle_special(rng):
-    """aliasing and empty-selection cases of the property, on the implementation"""
+def oracle_special(rng, only=None):
+    """aliasing and empty-selection cases of the property, on the implementation. Every operation in them is one the
+    property requires to succeed (or to raise OverflowError where stated): any other exception is a failing input."""
     out = []
     for fmt, name, composed, m in sub_fields():
-        lsb = (m & -m).bit_length() - 1
-        maxv = m >> lsb
-        n = 9
-        rec = fresh_record(fmt, rng, n)
-        vals = np.array(rec[name]).copy()
-        full = rec.array.copy()
-        # a live view of the same field as the value: v[:] = v, v[:] = v[::-1], shifted overlapping slices
-        rec[name][:] = rec[name]
-        if rec.array.tobytes() != full.tobytes():
-            out.append((f"self-assignment {name}", {"format": fmt, "field": name}, f"{name}[:] = {name} changed the record"))
-        rec = fresh_record(fmt, rng, n); vals = np.array(rec[name]).copy(); other = rec.array.copy()
-        rec[name][:] = rec[name][::-1]
-        if not np.array_equal(np.array(rec[name]), vals[::-1]):
-            out.append((f"reversed self-assignment {name}", {"format": fmt, "field": name}, f"{name}[:] = {name}[::-1] gave {np.array(rec[name]).tolist()} expected {vals[::-1].tolist()}"))
-        # overlapping live views: shifted by one point, and a live view of a sibling sharing the byte as the value
-        rec = fresh_record(fmt, rng, n); vals = np.array(rec[name]).copy(); raw0 = rec.array.copy()
-        rec[name][1:] = rec[name][:-1]
-        if np.array(rec[name]).tolist() != [vals[0]] + vals[:-1].tolist() or not all(
-                raw0[f].tobytes() == rec.array[f].tobytes() for f in raw0.dtype.names if f != composed) or np.any((raw0[composed] ^ rec.array[composed]) & ~np.uint8(m)):
-            out.append((f"shifted self-assignment {name}", {"format": fmt, "field": name}, f"{name}[1:] = {name}[:-1] gave {np.array(rec[name]).tolist()} from {vals.tolist()}"))
-        for sfmt_, sname, scomp, sm in sub_fields():
-            if sfmt_ == fmt and scomp == composed and sname != name and (sm >> ((sm & -sm).bit_length() - 1)) <= maxv:
-                rec = fresh_record(fmt, rng, n); svals = np.array(rec[sname]).copy()
-                rec[name][:] = rec[sname]
-                if np.array(rec[name]).tolist() != svals.tolist() or np.array(rec[sname]).tolist() != svals.tolist():
-                    out.append((f"sibling-view assignment {name}", {"format": fmt, "field": name, "value_view": sname},
-                                f"{name}[:] = {sname} (live view of the same byte) gave {np.array(rec[name]).tolist()}, {sname} = {svals.tolist()}"))
-                break
-        rec = fresh_record(fmt, rng, n); vals = np.array(rec[name]).copy()
-        setattr(rec, name, rec[name])
-        if not np.array_equal(np.array(rec[name]), vals):
-            out.append((f"attribute self-assignment {name}", {"format": fmt, "field": name}, "rec.f = rec.f changed the field"))
-        # the packed record is resized between two assignments (a cached view of the old array would swallow the second one)
-        rec = fresh_record(fmt, rng, n)
-        _ = rec[name]
-        rec.resize(n + 3)
-        rec[name][:] = maxv
-        if not np.array_equal(np.array(rec[name]), np.full(n + 3, maxv)) or not np.array_equal((rec.array[composed] & m) >> lsb, np.full(n + 3, maxv)):
-            out.append((f"assignment after resize {name}", {"format": fmt, "field": name}, f"after resize(), {name}[:] = {maxv} did not reach the record's packed bytes"))
-        rec.resize(2)
-        rec[name] = np.array([0, maxv])
-        if ((rec.array[composed] & m) >> lsb).tolist() != [0, maxv]:
-            out.append((f"assignment after resize {name}", {"format": fmt, "field": name}, "after shrinking, the assignment did not reach the record"))
-        # per-point values through the list-of-names form
-        rec = fresh_record(fmt, rng, n)
-        want = np.array([rng.randrange(maxv + 1) for _ in range(n)])
-        rec[[name]] = want
-        if not np.array_equal(np.array(rec[name]), want):
-            out.append((f"list-of-names assignment {name}", {"format": fmt, "field": name, "values": want.tolist()}, f"rec[[{name!r}]] = values stored {np.array(rec[name]).tolist()}"))
-        rec = fresh_record(fmt, rng, n); before = rec.array.tobytes()
-        bad = want.copy(); bad[n // 2] = maxv + 1
+        if only is not None and (fmt, name) != only:
+            continue
         try:
-            rec[[name]] = bad
-            out.append((f"list-of-names out-of-range {name}", {"format": fmt, "field": name}, "an out-of-range value in the middle of the array was not refused"))
-        except OverflowError:
-            if rec.array.tobytes() != before:
-                out.append((f"list-of-names out-of-range {name}", {"format": fmt, "field": name}, "record modified although OverflowError was raised"))
+            _special_checks(out, fmt, name, composed, m, rng)
         except Exception as ex:
-            out.append((f"list-of-names out-of-range {name}", {"format": fmt, "field": name}, f"raised {type(ex).__name__}"))
-        # every OTHER sub-field of the format, read by name, keeps its values (two fields sharing a bit would fail here)
-        rec = fresh_record(fmt, rng, 64)
-        others = {o[1]: np.array(rec[o[1]]).copy() for o in sub_fields() if o[0] == fmt and o[1] != name}
-        rec[name][:] = np.array([rng.randrange(maxv + 1) for _ in range(64)])
-        for on, ov in others.items():
-            if not np.array_equal(np.array(rec[on]), ov):
-                out.append((f"sibling {on} changed by {name}", {"format": fmt, "field": name, "sibling": on}, f"assigning {name} changed the values of {on}"))
-                break
-        # values that cannot be broadcast onto the selection: refused (ValueError), nothing modified - in particular the
-        # field is not left cleared; an out-of-range value among them is still an OverflowError
-        for key, cnt, kd in ((slice(0, 4), 3, "slice of 4, 3 values"), (slice(None), n + 2, "whole view, n+2 values"),
-                             (np.arange(n) % 2 == 0, 2, "mask of 5, 2 values"), ([0, 1, 2], 2, "index list of 3, 2 values")):
-            for badv in (False, True):
-                rec = fresh_record(fmt, rng, n); before = rec.array.tobytes()
-                vals_ = [rng.randrange(maxv + 1) for _ in range(cnt)]
-                if badv:
-                    vals_[-1] = maxv + 1
-                try:
-                    rec[name][key] = vals_
-                    out.append((f"shape mismatch {name}", {"format": fmt, "field": name, "key": kd, "values": vals_}, "accepted"))
-                except (OverflowError if badv else ValueError):
-                    pass
-                except Exception as ex:
-                    out.append((f"shape mismatch {name}", {"format": fmt, "field": name, "key": kd, "values": vals_}, f"raised {type(ex).__name__}"))
-                if rec.array.tobytes() != before:
-                    out.append((f"shape mismatch {name}", {"format": fmt, "field": name, "key": kd, "values": vals_},
-                                f"{name}[{kd}] = {vals_} was refused but the record was modified"))
-        # out-of-range value with a selection that addresses nothing
-        for key, kd in ((np.zeros(n, dtype=bool), "mask matching nothing"), (slice(0, 0), "empty slice")):
-            for v in (maxv + 1, -1):
-                rec = fresh_record(fmt, rng, n); before = rec.array.tobytes()
-                try:
-                    rec[name][key] = v
-                    out.append((f"out-of-range with empty selection {name}", {"format": fmt, "field": name, "value": v, "key": kd}, f"{name}[{kd}] = {v} did not raise OverflowError"))
-                except OverflowError:
-                    pass
-                except Exception as ex:
-                    out.append((f"out-of-range with empty selection {name}", {"format": fmt, "field": name, "value": v, "key": kd}, f"raised {type(ex).__name__}"))
-                if rec.array.tobytes() != before:
-                    out.append((f"empty selection modified {name}", {"format": fmt, "field": name}, "record modified"))
+            import traceback
+            tb = traceback.extract_tb(ex.__traceback__)
+            here = [f for f in tb if f.filename.endswith("c09.py")]
+            out.append((f"unexpected exception {name}", {"format": fmt, "field": name},
+                        f"{type(ex).__name__}: {str(ex)[:120]} raised by `{(here[-1].line if here else '?')}` "
+                        f"(at {tb[-1].filename.split('/laspy/')[-1]}:{tb[-1].lineno}), an operation that must succeed"))
     return out
+
+
+def _special_checks(out, fmt, name, composed, m, rng):
+    lsb = (m & -m).bit_length() - 1
+    maxv = m >> lsb
+    n = 9
+    rec = fresh_record(fmt, rng, n)
+    vals = np.array(rec[name]).copy()
+    full = rec.array.copy()
+    # a live view of the same field as the value: v[:] = v, v[:] = v[::-1], shifted overlapping slices
+    rec[name][:] = rec[name]
+    if rec.array.tobytes() != full.tobytes():
+        out.append((f"self-assignment {name}", {"format": fmt, "field": name}, f"{name}[:] = {name} changed the record"))
+    rec = fresh_record(fmt, rng, n); vals = np.array(rec[name]).copy(); other = rec.array.copy()
+    rec[name][:] = rec[name][::-1]
+    if not np.array_equal(np.array(rec[name]), vals[::-1]):
+        out.append((f"reversed self-assignment {name}", {"format": fmt, "field": name}, f"{name}[:] = {name}[::-1] gave {np.array(rec[name]).tolist()} expected {vals[::-1].tolist()}"))
+    # overlapping live views: shifted by one point, and a live view of a sibling sharing the byte as the value
+    rec = fresh_record(fmt, rng, n); vals = np.array(rec[name]).copy(); raw0 = rec.array.copy()
+    rec[name][1:] = rec[name][:-1]
+    if np.array(rec[name]).tolist() != [vals[0]] + vals[:-1].tolist() or not all(
+            raw0[f].tobytes() == rec.array[f].tobytes() for f in raw0.dtype.names if f != composed) or np.any((raw0[composed] ^ rec.array[composed]) & ~np.uint8(m)):
+        out.append((f"shifted self-assignment {name}", {"format": fmt, "field": name}, f"{name}[1:] = {name}[:-1] gave {np.array(rec[name]).tolist()} from {vals.tolist()}"))
+    for sfmt_, sname, scomp, sm in sub_fields():
+        if sfmt_ == fmt and scomp == composed and sname != name and (sm >> ((sm & -sm).bit_length() - 1)) <= maxv:
+            rec = fresh_record(fmt, rng, n); svals = np.array(rec[sname]).copy()
+            rec[name][:] = rec[sname]
+            if np.array(rec[name]).tolist() != svals.tolist() or np.array(rec[sname]).tolist() != svals.tolist():
+                out.append((f"sibling-view assignment {name}", {"format": fmt, "field": name, "value_view": sname},
+                            f"{name}[:] = {sname} (live view of the same byte) gave {np.array(rec[name]).tolist()}, {sname} = {svals.tolist()}"))
+            break
+    rec = fresh_record(fmt, rng, n); vals = np.array(rec[name]).copy()
+    setattr(rec, name, rec[name])
+    if not np.array_equal(np.array(rec[name]), vals):
+        out.append((f"attribute self-assignment {name}", {"format": fmt, "field": name}, "rec.f = rec.f changed the field"))
+    # the packed record is resized between two assignments (a cached view of the old array would swallow the second one)
+    rec = fresh_record(fmt, rng, n)
+    _ = rec[name]
+    rec.resize(n + 3)
+    rec[name][:] = maxv
+    if not np.array_equal(np.array(rec[name]), np.full(n + 3, maxv)) or not np.array_equal((rec.array[composed] & m) >> lsb, np.full(n + 3, maxv)):
+        out.append((f"assignment after resize {name}", {"format": fmt, "field": name}, f"after resize(), {name}[:] = {maxv} did not reach the record's packed bytes"))
+    rec.resize(2)
+    rec[name] = np.array([0, maxv])
+    if ((rec.array[composed] & m) >> lsb).tolist() != [0, maxv]:
+        out.append((f"assignment after resize {name}", {"format": fmt, "field": name}, "after shrinking, the assignment did not reach the record"))
+    # per-point values through the list-of-names form
+    rec = fresh_record(fmt, rng, n)
+    want = np.array([rng.randrange(maxv + 1) for _ in range(n)])
+    rec[[name]] = want
+    if not np.array_equal(np.array(rec[name]), want):
+        out.append((f"list-of-names assignment {name}", {"format": fmt, "field": name, "values": want.tolist()}, f"rec[[{name!r}]] = values stored {np.array(rec[name]).tolist()}"))
+    rec = fresh_record(fmt, rng, n); before = rec.array.tobytes()
+    bad = want.copy(); bad[n // 2] = maxv + 1
+    try:
+        rec[[name]] = bad
+        out.append((f"list-of-names out-of-range {name}", {"format": fmt, "field": name}, "an out-of-range value in the middle of the array was not refused"))
+    except OverflowError:
+        if rec.array.tobytes() != before:
+            out.append((f"list-of-names out-of-range {name}", {"format": fmt, "field": name}, "record modified although OverflowError was raised"))
+    except Exception as ex:
+        out.append((f"list-of-names out-of-range {name}", {"format": fmt, "field": name}, f"raised {type(ex).__name__}"))
+    # every OTHER sub-field of the format, read by name, keeps its values (two fields sharing a bit would fail here)
+    rec = fresh_record(fmt, rng, 64)
+    others = {o[1]: np.array(rec[o[1]]).copy() for o in sub_fields() if o[0] == fmt and o[1] != name}
+    rec[name][:] = np.array([rng.randrange(maxv + 1) for _ in range(64)])
+    for on, ov in others.items():
+        if not np.array_equal(np.array(rec[on]), ov):
+            out.append((f"sibling {on} changed by {name}", {"format": fmt, "field": name, "sibling": on}, f"assigning {name} changed the values of {on}"))
+            break
+    # values that cannot be broadcast onto the selection: refused (ValueError), nothing modified - in particular the
+    # field is not left cleared; an out-of-range value among them is still an OverflowError
+    for key, cnt, kd in ((slice(0, 4), 3, "slice of 4, 3 values"), (slice(None), n + 2, "whole view, n+2 values"),
+                         (np.arange(n) % 2 == 0, 2, "mask of 5, 2 values"), ([0, 1, 2], 2, "index list of 3, 2 values")):
+        for badv in (False, True):
+            rec = fresh_record(fmt, rng, n); before = rec.array.tobytes()
+            vals_ = [rng.randrange(maxv + 1) for _ in range(cnt)]
+            if badv:
+                vals_[-1] = maxv + 1
+            try:
+                rec[name][key] = vals_
+                out.append((f"shape mismatch {name}", {"format": fmt, "field": name, "key": kd, "values": vals_}, "accepted"))
+            except (OverflowError if badv else ValueError):
+                pass
+            except Exception as ex:
+                out.append((f"shape mismatch {name}", {"format": fmt, "field": name, "key": kd, "values": vals_}, f"raised {type(ex).__name__}"))
+            if rec.array.tobytes() != before:
+                out.append((f"shape mismatch {name}", {"format": fmt, "field": name, "key": kd, "values": vals_},
+                            f"{name}[{kd}] = {vals_} was refused but the record was modified"))
+    # out-of-range value with a selection that addresses nothing
+    for key, kd in ((np.zeros(n, dtype=bool), "mask matching nothing"), (slice(0, 0), "empty slice")):
+        for v in (maxv + 1, -1):
+            rec = fresh_record(fmt, rng, n); before = rec.array.tobytes()
+            try:
+                rec[name][key] = v
+                out.append((f"out-of-range with empty selection {name}", {"format": fmt, "field": name, "value": v, "key": kd}, f"{name}[{kd}] = {v} did not raise OverflowError"))
+            except OverflowError:
+                pass
+            except Exception as ex:
+                out.append((f"out-of-range with empty selection {name}", {"format": fmt, "field": name, "value": v, "key": kd}, f"raised {type(ex).__name__}"))
+            if rec.array.tobytes() != before:
+                out.append((f"empty selection modified {name}", {"format": fmt, "field": name}, "record modified"))
 
 
 def search_sessions(ctx):
@@ -984,6 +1973,22 @@ def search_sessions(ctx):
     return out
 
 
+def search_worlds(ctx):
+    """the property across objects on fresh worlds (also when the model could not be built); assignments that break it first"""
+    fails = _WORLD_FAILS + world_failures(pattern_worlds(ctx.rng) + [gen_world(ctx.rng) for _ in range(ctx.n(200, 4000))])
+    fails.sort(key=lambda f: 0 if f["input"]["steps"][-1]["s"] in ("op", "copyfrom", "vset") else 1)
+    out, seen = [], set()
+    for f in fails:
+        if f["kind"] not in seen and len(out) < 4:
+            seen.add(f["kind"])
+            try:
+                f = shrink_world(f["input"], f)
+            except Exception:
+                pass
+            out.append(f)
+    return out
+
+
 def search(ctx, seeds):
     failing, seen = [], set()
     for f in _SESSION_FAILS + search_sessions(ctx):
@@ -991,6 +1996,9 @@ def search(ctx, seeds):
             seen.add(f["kind"])
             failing.append(f)
     failing = failing[:6]
+    wf = search_worlds(ctx)
+    failing = failing[:6 - min(3, len(wf))] + wf[:3]
+    seen.update(f["kind"] for f in wf)
     for f in _ARR_FAILS:
         if f["kind"] not in seen:
             seen.add(f["kind"])
@@ -1013,6 +2021,10 @@ def search(ctx, seeds):
 
 def replay(ctx, data):
     inp = data.get("failing_input", {}).get("input")
+    if inp and "world" in inp:
+        fail, _ = run_world(inp)
+        print("REPRODUCED: " + fail["kind"] + ": " + fail["observed"] if fail else "not reproduced")
+        return 1 if fail else 0
     if inp and "ops" in inp:
         fails = session_failures(inp, run_session(inp))
         print("REPRODUCED: " + fails[0]["kind"] + ": " + fails[0]["observed"] if fails else "not reproduced")
@@ -1020,6 +2032,13 @@ def replay(ctx, data):
     if not inp or "field" not in inp:
         print("nothing to replay")
         return 0
+    if "value" not in inp or isinstance(inp.get("value"), str) or "key" in inp or "value_view" in inp or "sibling" in inp or "values" in inp:
+        fails = oracle_special(ctx.rng, only=(inp["format"], inp["field"])) if "index" not in inp else []
+        for kind, _, why in fails:
+            print("REPRODUCED: " + kind + ": " + why)
+        if not fails:
+            print("not reproduced")
+        return 1 if fails else 0
     sf = [s for s in sub_fields() if s[0] == inp["format"] and s[1] == inp["field"]][0]
     why = oracle_element(sf[0], sf[1], sf[2], sf[3], inp["value"], ctx.rng)
     print("REPRODUCED: " + why if why else "not reproduced")
